@@ -423,7 +423,18 @@ fn record_type<T: Label>(rng: &mut Rng, tw: &mut TraceWriter, programs: u64, ste
 				}
 				93..=95 => {
 					tw.ev(json!({"ev":"clone","h":h,"as":new_h,"res":"ok"}));
-					let c = w.clone();
+					// half of the clones go through `clone_from` onto a window of the same capacity in another ring phase
+					let c = if rng.chance(0.5) && w.len() > 0 {
+						let cap = w.len();
+						let mut d = Window::new(cap, T::mk(7777));
+						for j in 0..rng.below(cap as u64 + 2) {
+							d.push(T::mk(7000 + j));
+						}
+						d.clone_from(w);
+						d
+					} else {
+						w.clone()
+					};
 					pr.ws.push(Some(c));
 				}
 				96..=97 => {
